@@ -117,6 +117,24 @@ def verify_function(qualname, opts=None):
         mi, fn = source.find_function(qualname)
         rep.sha = mi.sha
         rep.line = fn.lineno
+        if getattr(con, "custom", None) is not None:
+            # contract with its own obligation generator over the function's AST (idiom-specific rule)
+            from .engine import Obligation as _Ob
+
+            obls = [_Ob(con.short, f"{kind}:{name}@L{fn.lineno}", kind, pc, goal, fn.lineno) for kind, name, pc, goal in con.custom(mi, fn)]
+            if not obls:
+                rep.status = "ERROR"
+                rep.reason = "no obligations generated"
+                return rep
+            rep.paths = 1
+            if opts.get("defer"):
+                for ob in obls:
+                    rep.obligations.append({"name": ob.key(), "kind": ob.kind, "line": ob.line, "status": "pending",
+                                            "smt2": smt.export_query(ob.pc, ob.goal), "relaxed": None, "noseq": None, "linear": None, "sliced": None})
+                rep.status = "PENDING"
+            else:
+                _discharge(obls, rep, opts)
+            return rep
         eng = Engine(opts)
         eng.fn = con
         eng.mi = mi
